@@ -9,7 +9,7 @@ import sys
 sys.path.insert(0, os.path.dirname(os.path.dirname(os.path.abspath(__file__))))
 import py2lean  # noqa: E402
 
-N, B, L = py2lean.N, py2lean.B, py2lean.L
+N, B, L, T = py2lean.N, py2lean.B, py2lean.L, py2lean.T
 
 # key -> (path relative to the repo, Lean module name, [functions], per-function configuration)
 MODULES = {
@@ -63,9 +63,18 @@ MODULES = {
         "get_first_job_input_volume", "get_address", "get_strides", "get_address_range",
         "get_h_ranges", "get_address_ranges_for_area", "ranges_overlap", "range_lists_overlap",
         "get_address_ranges",
-        "check_alignment", "check_size"],
+        "check_alignment", "check_size", "calc_blockdep"],
         {"__tuples__": {"PointXYZ": "ethosu/vela/operation.py", "NpuShape3D": "ethosu/vela/api.py",
                         "NpuAddressRange": "ethosu/vela/api.py"},      # field order is read from the source
+         "calc_blockdep": {
+             "records": ["arch", "prev_op", "npu_op"],
+             "opaque_records": ["prev_block_config", "block_config", "overlapping_fm", "cur_ofm_block", "cur_ofm_rect",
+                                "cur_ifm_rect", "padding", "kernel", "prev_ofm_block", "prev_ofm_rect"],
+             "opaque_fns": {"get_address_ranges": L(py2lean.O(py2lean.NT("NpuAddressRange"))), "has_ifm2": B,
+                            "get_ifm_ofm_block_depth": N,
+                            "get_first_job_input_volume": py2lean.O(T(py2lean.NT("PointXYZ"), py2lean.NT("PointXYZ"), N)),
+                            "get_prev_job_output_volume": py2lean.O(T(py2lean.NT("PointXYZ"), py2lean.NT("PointXYZ"), N)),
+                            "intersects": B}},
          "get_strides": {"records": ["fm"], "record_tuples": {"fm.strides": "NpuShape3D"}},
          "get_address_range": {"records": ["fm", "strides"]},
          "get_h_ranges": {"records": ["fm", "strides"]},
